@@ -557,7 +557,7 @@ def _ctm_dir_ctm(case):
 # Proposed repair: fixes/C17-textgrids-infer-length-in-double.diff; directed case:
 # replays/C17/textgrid_export_infer_beyond_4h.json.pending (rename to .json once merged).  Until then times that long are kept out
 # of the TextGrid export generator; VERIF_C17_TG_BEYOND_4H=1 switches them on (use with VERIF_REPO_SRC=<patched tree>).
-ENABLE_TEXTGRID_EXPORT_BEYOND_4H = os.environ.get("VERIF_C17_TG_BEYOND_4H") == "1"
+ENABLE_TEXTGRID_EXPORT_BEYOND_4H = True  # repaired in /repo by f71807b
 
 
 
